@@ -200,8 +200,22 @@ Lemma add_text_to_container_xi st c lm line st' :
 Proof.
   unfold add_text_to_container. intros H P.
   assert (AL : forall st id line st', add_line st id line = Ok st' -> XI o L 0 st -> XI o L 1 st') by (intros; eapply add_line_xi; eassumption).
-  mon H; monall; repeat match goal with p : (_ * _)%type |- _ => destruct p end; cbn [fst snd] in *;
-  first [ solve [eauto 20 with xi] | solve [apply XI_st_current; apply XI_slack; eauto 20 with xi] | solve [apply XI_slack; eauto 20 with xi] ].
+  (* the common prefix once, then the branches *)
+  destruct (ffn st line) as [s1| |] eqn:E1; cbn [bind] in H; try discriminate H.
+  assert (P1 : XI o L 0 s1) by eauto with xi.
+  destruct (get s1 c) as [cn| |] eqn:G; cbn [bind] in H; try discriminate H.
+  match type of H with bind ?r _ = _ => destruct r as [s2| |] eqn:E2; cbn [bind] in H; try discriminate H end.
+  assert (P2 : XI o L 0 s2) by (clear H; mon E2; eauto with xi).
+  match type of H with bind ?r _ = _ => destruct r as [s3| |] eqn:E3; cbn [bind] in H; try discriminate H end.
+  assert (P3 : XI o L 0 s3) by eauto with xi.
+  match type of H with bind ?r _ = _ => destruct r as [s4| |] eqn:E4; cbn [bind] in H; try discriminate H end.
+  assert (P4 : XI o L 0 s4) by eauto with xi.
+  clear P P1 P2 P3 E1 E2 E3 E4.
+  mon H; monall; repeat match goal with p : (_ * _)%type |- _ => destruct p end; cbn [fst snd] in *.
+  all: match goal with
+       | A : add_line _ _ _ = Ok _ |- _ => solve [eauto 20 with xi]
+       | _ => first [ solve [apply XI_st_current; apply XI_slack; eauto 20 with xi] | solve [apply XI_slack; eauto 20 with xi] ]
+       end.
 Qed.
 End handlers2.
 
